@@ -212,3 +212,23 @@ func (le Region) EqualInRegion(f, g LinForm) bool {
 	lo, hi, ok := le.Bounds(d)
 	return ok && lo.Sign() == 0 && hi.Sign() == 0
 }
+
+// FormOf returns the exact linear form the partition holds for SSA value v, if any.
+func (le Region) FormOf(v ssa.Value) (LinForm, bool) {
+	st := le.st.clone()
+	t := le.a.termOf(st, v)
+	if !t.ok {
+		return LinForm{}, false
+	}
+	return le.a.linOf(st, t)
+}
+
+// ValueLeq reports whether x <= y holds for the two SSA values on every input of the partition.
+func (le Region) ValueLeq(x, y ssa.Value) bool {
+	st := le.st.clone()
+	tx, ty := le.a.termOf(st, x), le.a.termOf(st, y)
+	return tx.ok && ty.ok && le.a.leq(st, tx, ty)
+}
+
+// Flags returns the receiver flags tested on the way to the partition's end.
+func (le Region) Flags() map[string]bool { return le.st.flags }
